@@ -508,3 +508,100 @@ def c20_repeatable(rng, tier):
     if not np.array_equal(u1, u2):
         out.append(_fail("unify_mesh is not repeatable on the same sections", float(np.max(np.abs(u1 - u2))), 0.0, sections=n))
     return out
+
+
+# ---------------------------------------------------------------------------------------
+# structural parts of C04 (half vs full) and C07 (mirror symmetry), incl. finding F7
+# ---------------------------------------------------------------------------------------
+def _full_surface(s):
+    from .refvlm import full_mesh
+    fm, sl = full_mesh(s["mesh"], True)
+    f = dict(s); f["mesh"] = fm; f["symmetry"] = False
+    # control points of a full-span surface run tip-root-tip: mirror the half-span distribution
+    for k in ("thickness_cp", "twist_cp", "chord_cp"):
+        if k in f:
+            cp = np.asarray(f[k]); f[k] = np.concatenate([cp, cp[-2::-1]])
+    return f, sl
+
+
+@oracle("C04", "half_vs_full_aerostruct")
+def c04_half_full_struct(rng, tier):
+    relief = bool(rng.integers(2))
+    s = _as_surface(rng, tier, sym=True, struct_weight_relief=relief)
+    # B-spline distributions over a half span and over a full span are different functions unless they are constant:
+    # use constant thickness and twist so that the half and the full model describe the same wing
+    s["thickness_cp"] = np.full(3, float(rng.uniform(0.01, 0.03))); s["twist_cp"] = np.full(3, float(rng.uniform(-2, 2)))
+    f, sl = _full_surface(s)
+    flow = _as_flow(rng)
+    ph = pipelines.build_aerostruct([s], [flow]); pf = pipelines.build_aerostruct([f], [flow])
+    with quiet():
+        ph.run_model(); pf.run_model()
+    out = []
+    ny = s["mesh"].shape[1]
+    case = dict(ny=ny, weight_relief=relief, load_factor=flow["load_factor"])
+    def g(p, k):
+        return np.array(p.get_val(k), dtype=float)
+    for k in ("AS_point_0.CL", "AS_point_0.CD", "AS_point_0.CM", "AS_point_0.fuelburn", "AS_point_0.L_equals_W", "wing.structural_mass", "wing.cg_location"):
+        # (the KS-aggregated failure is not compared: aggregating every stress twice shifts KS by ln 2 / rho, inside the C15 band;
+        #  the stresses themselves are compared below)
+        a, b = g(ph, k), g(pf, k)
+        if np.max(np.abs(a - b)) > 1e-6 * max(np.max(np.abs(b)), 1e-9):
+            out.append(_fail("half and full aerostructural model differ in %s" % k.split(".")[-1], a, b, **case))
+    dh = g(ph, "AS_point_0.coupled.wing.disp"); df = g(pf, "AS_point_0.coupled.wing.disp")[:ny]
+    if relerr(dh, df) > 1e-6:
+        out.append(_fail("displacements on the modelled half differ between half and full model", dh[0], df[0], **case))
+    vh = g(ph, "AS_point_0.wing_perf.vonmises"); vf = g(pf, "AS_point_0.wing_perf.vonmises")[:ny - 1]
+    if relerr(vh, vf) > 1e-6:
+        out.append(_fail("stresses on the modelled half differ between half and full model", vh[0], vf[0], **case))
+    return out
+
+
+@oracle("C07", "mirror_symmetric_full_span_structure")
+def c07_struct_symmetry(rng, tier):
+    """a mirror-symmetric full-span aerostructural model has mirror-symmetric loads, displacements and stresses (tube)"""
+    s = _as_surface(rng, tier, sym=True, struct_weight_relief=bool(rng.integers(2)))
+    f, sl = _full_surface(s)          # mirrored control points: a mirror-symmetric full-span wing (any distribution)
+    flow = _as_flow(rng)
+    p = pipelines.build_aerostruct([f], [flow])
+    with quiet():
+        p.run_model()
+    out = []
+    case = dict(ny=f["mesh"].shape[1])
+    loads = np.array(p.get_val("AS_point_0.coupled.wing.loads")); disp = np.array(p.get_val("AS_point_0.coupled.wing.disp"))
+    vm = np.array(p.get_val("AS_point_0.wing_perf.vonmises"))
+    mir6 = np.array([1, -1, 1, -1, 1, -1.0])      # forces/translations mirror as vectors, moments/rotations as pseudo-vectors
+    if relerr(loads[::-1] * mir6, loads) > 1e-7:
+        out.append(_fail("loads of a mirror-symmetric full-span model are not mirror symmetric", loads[::-1][0] * mir6, loads[0], **case))
+    if relerr(disp[::-1] * mir6, disp) > 1e-7:
+        out.append(_fail("displacements of a mirror-symmetric full-span model are not mirror symmetric", disp[::-1][0] * mir6, disp[0], **case))
+    # mirror-image elements: the two stress points of the tube exchange their roles (element orientation reverses)
+    vmm = vm[::-1][:, ::-1]
+    if relerr(np.sort(vmm, axis=1), np.sort(vm, axis=1)) > 1e-6:
+        out.append(_fail("tube stresses of mirror-image elements differ", vmm[0], vm[0], **case))
+    return out
+
+
+@oracle("C07", "wingbox_stress_symmetry")
+def c07_wingbox_symmetry(rng, tier):
+    """stress recovery of the wingbox on mirror-image elements under a mirror-symmetric displacement field (finding F7)"""
+    from openaerostruct.structures.vonmises_wingbox import VonMisesWingbox
+    ny = int(rng.choice([3, 5, 7]))
+    y = np.linspace(-1, 1, ny) * float(rng.uniform(4, 10))
+    nodes = np.zeros((ny, 3)); nodes[:, 1] = y; nodes[:, 0] = 0.1 * np.abs(y); nodes[:, 2] = 0.05 * np.abs(y)
+    s = pipelines.struct_surface("w", np.zeros((2, ny, 3)), False, fem="wingbox")
+    s["strength_factor_for_upper_skin"] = 1.0
+    ne = ny - 1
+    half = {k: rng.uniform(lo, hi, size=ne // 2) for k, (lo, hi) in dict(Qz=(1e-3, 1e-2), J=(1e-3, 1e-2), A_enc=(0.1, 0.6), spar_thickness=(2e-3, 2e-2),
+                                                                         htop=(0.05, 0.3), hbottom=(0.05, 0.3), hfront=(0.2, 0.8), hrear=(0.2, 0.8)).items()}
+    sec = {k: np.concatenate([v, v[::-1]]) for k, v in half.items()}
+    # mirror-symmetric displacement field: bending up, symmetric twist
+    d = np.zeros((ny, 6)); eta = np.abs(y) / np.max(np.abs(y))
+    d[:, 2] = 0.3 * eta ** 2; d[:, 3] = -0.6 * eta / np.max(np.abs(y)) * np.sign(y) * 1.0; d[:, 4] = 0.01 * eta
+    prob = core.comp_problem(VonMisesWingbox(surface=s), dict(nodes=nodes, disp=d, **sec))
+    vm = np.array(prob.get_val("vonmises"))
+    if relerr(vm[::-1], vm) > 1e-6:
+        f = _fail("wingbox von Mises stresses of mirror-image elements differ under a mirror-symmetric displacement field",
+                  vm[::-1][0], vm[0], ny=ny)
+        f["finding"] = "F7"
+        return [f]
+    return []
